@@ -74,6 +74,12 @@ Definition index_ok (nvars : N) (i : instr) : bool :=
   | IBeginForEach a b c d e | IForEach a b c d e =>
       (a <? max_locals) && (b <? max_locals) && (c <? max_locals) && (d <? max_locals) && (e <? max_locals)
   | IRegisterUpvalue x l => (x <? max_locals) && (l <=? 1)
+  (* d723a2c: the operand of CloseUpvalue is the slot of the local that goes out of scope, i.e.
+     `locals.len()` read after the pop from an ArrayVec<Local, 255>: the compiler guarantees
+     0 <= x <= 254 (CompilerOk.pop_locals_close_small); like the other local indices it is an index
+     into the locals of the function the instruction belongs to, which this checker does not
+     track per function *)
+  | ICloseUpvalue x => x <? max_locals
   | _ => true
   end.
 
@@ -171,7 +177,7 @@ Definition wellformed_gen (window : bool) (B : compiled) : Prop :=
 Definition wellformed : compiled -> Prop := wellformed_gen read_str_windowed.
 
 (* "every instruction that can fail has a trace entry": Pop is the only instruction of the VM
-   that cannot return an error *)
+   that cannot return an error (CloseUpvalue can: OutOfMemory from the closed cell's allocation) *)
 Definition needs_trace (i : instr) : bool := match i with IPop => false | _ => true end.
 Definition untraced (B : compiled) : list (nat * instr) :=
   match decode (p_bytecode B) with
